@@ -22,3 +22,21 @@ package signxap
 //@   on call crypto/hmac.Equal(a, b) ret (r): digestOK = (r && hashed && sameslice(a, calc) && sameslice(b, indirect.MessageDigest.Digest))
 //@   ensures @cms_signature_verified ret1 == nil ==> cmsOK
 //@   ensures @content_digest_recomputed_and_compared ret1 == nil && !skipDigests ==> digestOK
+//@
+//@ func DigestXapTar
+//@   property C03 C08
+//@   requires r != nil && 1 <= hash && hash <= 19
+//@   before call io.CopyN(dst, src, n): assert @archive_body_in_front_of_the_directory_is_digested dst == iface(d) && n == bodySize && n >= 0
+//@   ensures @patch_replaces_the_old_signature_trailer_behind_the_directory ret1 == nil ==> ret0 != nil && 0 <= ret0.PatchStart && 0 <= ret0.PatchLen && \
+//@        ret0.PatchStart + ret0.PatchLen == totalSize
+//@   loop 0 sig "for" invariant tr != nil && totalSize == 0
+//@
+//@ func (*XapDigest).Sign
+//@   property C03 C08
+//@   requires d != nil && 0 <= d.PatchStart && 0 <= d.PatchLen && d.PatchStart + d.PatchLen <= 4611686018427387904
+//@   ghost adds int = 0
+//@   before call (*binpatch.PatchSet).Add(_, off, sz, blob): assert @signature_and_trailer_replace_exactly_the_old_trailer adds == 0 && off == d.PatchStart && sz == d.PatchLen
+//@   on call (*binpatch.PatchSet).Add(_, _, _, _) ret (): adds = adds + 1
+//@   before call encoding/binary.Write(_, _, v): assert @trailer_size_is_signature_plus_header istype(v, xapTrailer) ==> \
+//@        unbox(v, xapTrailer).TrailerSize == (len(ts.Raw) + 8) % 4294967296 && unbox(v, xapTrailer).Magic == 1399873880
+//@   ensures @one_replacement ret2 == nil ==> adds == 1
